@@ -451,6 +451,16 @@ Proof.
   eapply set_l2e_wf; eauto.
 Qed.
 
+Lemma getitem_int_wf x i z : WF x -> getitem_int x i = Ok z -> WF z.
+Proof.
+  unfold getitem_int. intros W H. inv_guard H. apply sure_list_mon in B.
+  destruct (fv x) eqn:V; [discriminate|]. inv_guard H.
+  match goal with P : pick3 _ _ _ _ = Ok ?v, L : with_labels_of x ?v = Ok ?y0 |- _ =>
+    pose proof (pick3_scalar _ _ _ _ _ P) as S;
+    destruct (scalar_then x v y0 W B S L) as (U & A1' & A2' & A3' & M) end.
+  eapply set_l2e_wf; eauto.
+Qed.
+
 Lemma sum_wf x z : WF x -> get_nutrients_sum x = Ok z -> WF z.
 Proof.
   unfold get_nutrients_sum. intros W H. inv_guard H. apply sure_list_mon in B.
@@ -564,7 +574,6 @@ Qed.
 (* ------------------------------------------------------------------ closure *)
 Definition op_closed (o : op) : Prop :=
   match o with
-  | OIndex _ => False                                  (* refuted below *)
   | OSetUnits _ _ _ | OSetL2T | OSetL2E | OSetE2L => False   (* declared label mutators *)
   | OMul (MFood y) | ORMul y | OMinElemR y => WF y
   | OInUnits tk tf tp => clean tk = true /\ clean tf = true /\ clean tp = true
@@ -583,6 +592,7 @@ Proof.
   - exact (mul_food_wf y x z Hc W H).
   - eapply div_food_wf; eauto.
   - eapply map_wf; eauto.
+  - eapply getitem_int_wf; eauto.
   - eapply slice_wf; eauto.
   - eapply month_wf; eauto.
   - eapply month_wf; eauto.
@@ -722,7 +732,7 @@ Section Predicates.
   Qed.
 End Predicates.
 
-(* ------------------------------------------------------------------ what the code violates (witnesses) *)
+(* ------------------------------------------------------------------ witnesses *)
 Definition wit_series : food :=
   raw (Monthly [1; 2] [3; 4] [5; 6]) "billion kcals each month" "thousand tons each month" "thousand tons each month".
 
@@ -732,33 +742,16 @@ Proof.
   [exists "billion kcals", []|exists "thousand tons", []|exists "thousand tons", []]; repeat split; auto.
 Qed.
 
-(* x[i] hands the " each month" labels to a single value *)
-Lemma getitem_int_not_wf : exists z, getitem_int wit_series 0 = Ok z /\ mon z = false /\ ~ WF z.
-Proof.
-  eexists. split; [vm_compute; reflexivity|]. split; [reflexivity|].
-  intros [_ _ A _ _]. simpl in A. apply lab_sc_has0 in A. vm_compute in A. discriminate.
-Qed.
-
 Lemma lab_mon_roundtrip l : lab_mon l -> split_first EACH l ++ EACH = l.
 Proof.
   intros (b & pre & Hc & Hn & ->). unfold EACH. rewrite A4 by exact Hc. rewrite before_each_end by exact Hn.
   apply A6.
 Qed.
 
-(* int placeholders: " each month" is appended to labels that already carry it *)
-Lemma ctor_int_placeholder_not_wf : exists z,
-  ctor (NList [1; 2]) (NInt 0) (NInt 0) "billion kcals each month" "thousand tons each month" "thousand tons each month"
-    = Ok z /\ fu z = "thousand tons each month each month" /\ ~ WF z.
-Proof.
-  eexists. split; [vm_compute; reflexivity|]. split; [reflexivity|].
-  intros [_ _ _ B _]. simpl in B. apply lab_mon_roundtrip in B. vm_compute in B. discriminate.
-Qed.
-
-(* with float / array nutrients the constructor is fine *)
+(* the constructor: int placeholders included *)
 Lemma ctor_wf k f p lk lf lp z : ctor k f p lk lf lp = Ok z ->
   match k with
-  | NList _ => lab_any lk /\ (match f with NInt _ => lab_sc lf | _ => lab_any lf end)
-               /\ (match p with NInt _ => lab_sc lp | _ => lab_any lp end)
+  | NList _ => lab_any lk /\ lab_any lf /\ lab_any lp
   | _ => lab_sc lk /\ lab_sc lf /\ lab_sc lp
   end -> WF z.
 Proof.
@@ -769,9 +762,9 @@ Proof.
     destruct L as (A & B & C). constructor; simpl; auto.
   - destruct L as (A & B & C). unfold ctor in H.
     assert (Sf : forall n, lab_mon (snd (ctor_side n f lf))).
-    { intros n. destruct f; simpl; [now apply lab_sc_app_each|now apply ctor_label_any|now apply ctor_label_any]. }
+    { intros n. destruct f; simpl; now apply ctor_label_any. }
     assert (Sp : forall n, lab_mon (snd (ctor_side n p lp))).
-    { intros n. destruct p; simpl; [now apply lab_sc_app_each|now apply ctor_label_any|now apply ctor_label_any]. }
+    { intros n. destruct p; simpl; now apply ctor_label_any. }
     specialize (Sf (List.length kl)). specialize (Sp (List.length kl)).
     destruct (ctor_side (List.length kl) f lf) as [fa lf']. destruct (ctor_side (List.length kl) p lp) as [pa lp'].
     simpl in Sf, Sp. unfold guard in H.
